@@ -33,7 +33,7 @@ class Engine(Interp, ExprMixin, StmtMixin, CallMixin, MethodMixin):
         self.comp_info = {}
         self.iter_info = {}
         self.scoped = []
-        self.pure_modules = {'builtins', 'operator', 're', 'os', 'posixpath', 'typing', 'itertools', 'functools', 'collections', 'enum', 'string'}
+        self.pure_modules = {'builtins', 'operator', 're', 'os', 'posixpath', 'typing', 'itertools', 'functools', 'collections', 'enum', 'string', 'textwrap'}
         self.effect_modules = {'mesonbuild.mlog', 'mesonbuild.interpreterbase.decorators'}
         self.init_specials()
 
@@ -93,6 +93,8 @@ class Engine(Interp, ExprMixin, StmtMixin, CallMixin, MethodMixin):
             if c.yields is not None:
                 p.yields = VBox('list', z3.Empty(self.zs.zsort(api.Seq(c.yields))), c.yields)
                 fr.extra['__yield__'] = p.yields
+            p.gseq_decl = dict(getattr(c, 'ghost_seqs', None) or {})
+            p.gseq = {g: z3.Empty(z3.SeqSort(self.zs.zsort(S_))) for g, (_e, _i, S_) in p.gseq_decl.items()}
             live = dict(env)
             entry = {k: self.snapshot(v) for k, v in env.items()}
             for k, v in entry.items():
